@@ -16,6 +16,9 @@ the model by the correspondence harness instead):
         R_PRONG and `prong < R_PRONG` (structure/composite_sub_1.{hpp,inl})  -> Gen.half* / Gen.goesLeft
   * BYTE_COUNT of the stream buffer               (shared/bit_stream.hpp)   -> Gen.byteCount
   * BitArray UNIT_COUNT                           (containers/bit_array.hpp)-> Gen.unitCount
+  * call-order tables of S_::deepX / A_::wideX / C_::deepX (structure/*.inl)   -> Gen.ownFirstCodes / restFirstCodes / headFirstCodes
+  * the reset statements of R_::load(ReadStream&) and R_::finalExit(), each with the feature switch it is
+    compiled under and its position relative to the lifecycle delivery (root_0.inl)  -> Gen.loadSteps / Gen.exitSteps
 
 Both the development sources and the amalgamated include/ffsm2/machine.hpp are parsed; the result
 must be identical, otherwise the translator fails closed (the two header variants disagree).
@@ -424,6 +427,83 @@ def extract(text, variant):
 
     _try('phases', g_phases, failed)
 
+    def g_resets():
+        # ---- what R_::load() and R_::finalExit() reset, under which feature switch, and on which side of the delivery
+        #      (C06 / C12 / C19): a list of (statement, guard) in source order.
+        #      statements: 0 request.clear()  1 planData.clear()  2 previousTransition.clear()  3 the lifecycle delivery  4 registry.clear()
+        #      guards:     0 unconditional    1 FFSM2_PLANS_AVAILABLE()   2 FFSM2_TRANSITION_HISTORY_AVAILABLE()   9 anything else
+        def fn_body(header_rx, what):
+            m = find1(header_rx + r"[^{;]*\{", t, what)
+            i, depth = m.end(), 1
+            while i < len(t) and depth:
+                depth += {"{": 1, "}": -1}.get(t[i], 0)
+                i += 1
+            return t[m.end():i - 1]
+
+        GUARD = {"FFSM2_PLANS_AVAILABLE()": 1, "FFSM2_TRANSITION_HISTORY_AVAILABLE()": 2}
+        MACRO = {"FFSM2_IF_PLANS": 1, "FFSM2_IF_TRANSITION_HISTORY": 2}
+
+        def steps_of(body, delivery_rx, what):
+            stmts = [(r"_core\s*\.\s*request\s*\.\s*clear\s*\(\s*\)", 0), (r"_core\s*\.\s*planData\s*\.\s*clear\s*\(\s*\)", 1),
+                     (r"_core\s*\.\s*previousTransition\s*\.\s*clear\s*\(\s*\)", 2), (delivery_rx, 3),
+                     (r"_core\s*\.\s*registry\s*\.\s*clear\s*\(\s*\)", 4)]
+            out, stack, depth = [], [], 0
+            for line in body.split("\n"):
+                st = line.strip()
+                if st.startswith("#"):
+                    m = re.match(r"#\s*(if|ifdef|ifndef|elif|else|endif)\b\s*(.*)", st)
+                    if not m:
+                        continue
+                    kw, cond = m.group(1), m.group(2).strip()
+                    if kw in ("if", "ifdef", "ifndef"):
+                        stack.append(GUARD.get(cond, 9) if kw == "if" else 9)
+                    elif kw in ("elif", "else"):
+                        if not stack:
+                            raise TranslateError("%s: #%s without #if" % (what, kw))
+                        stack[-1] = 9
+                    else:
+                        if not stack:
+                            raise TranslateError("%s: #endif without #if" % what)
+                        stack.pop()
+                    continue
+                found = sorted((m.start(), m.end(), code) for rx, code in stmts for m in re.finditer(rx, line))
+                for (a, b, code) in found:
+                    guards = [g for g in stack]
+                    pre, post = line[:a].strip(), line[b:].strip()
+                    mm = re.fullmatch(r"(\w+)\s*\(", pre)
+                    if mm and mm.group(1) in MACRO:
+                        guards.append(MACRO[mm.group(1)])
+                        post = post[1:].strip() if post.startswith(")") else "?"
+                    elif pre:
+                        guards.append(9)            # part of a larger statement / condition
+                    if code != 3 and post != ";":
+                        guards.append(9)
+                    if depth > 0:
+                        guards.append(9)            # inside a nested block
+                    g = 0 if not guards else (guards[0] if all(x == guards[0] for x in guards) else 9)
+                    out.append((code, g))
+                depth += line.count("{") - line.count("}")
+            if stack:
+                raise TranslateError("%s: unbalanced #if" % what)
+            seq = out
+            if sorted(c for c, _ in seq) != sorted(set(c for c, _ in seq)):
+                raise TranslateError("%s: a reset statement occurs more than once: %s" % (what, seq))
+            if 3 not in [c for c, _ in seq]:
+                raise TranslateError("%s: the lifecycle delivery was not found" % what)
+            return seq
+
+        # sort matches on the same line by column
+        def ordered(body, rx, what):
+            seq = steps_of(body, rx, what)
+            return "[%s]" % ", ".join("(%d, %d)" % p for p in seq)
+
+        d["loadSteps"] = ("", ordered(fn_body(r"\bR_<TG_,\s*TA_>::load\s*\(\s*ReadStream\s*&", "R_::load(ReadStream&)"),
+                                       r"_apex\s*\.\s*deepChangeToRequested\s*\(", "R_::load"))
+        d["exitSteps"] = ("", ordered(fn_body(r"\bR_<TG_,\s*TA_>::finalExit\s*\(\s*\)", "R_::finalExit()"),
+                                       r"_apex\s*\.\s*deepExit\s*\(", "R_::finalExit"))
+
+    _try('resets', g_resets, failed)
+
     return d, failed
 
 def translate_call(expr, leanvar, cxxvar):
@@ -438,10 +518,12 @@ ORDER = ["bitsShort", "bitsLong", "bitsStateID", "bitsProng", "INVALID_SHORT", "
          "activityBitWrites", "activityBitReads",
          "taskCapacity", "defaultSubstitutionLimit", "defaultTaskCapacity", "substitutionLoopCount", "substLoopStart", "substLoopInclusive",
          "halfL", "halfR", "lowerKeeps", "upperSkips", "lStateId", "lProngIndex", "rStateId", "rProngIndex", "rProng", "goesLeft", "dispatchSites",
-         "findStep", "findHit", "findMiss", "findStart", "byteCount", "unitCount", "ownFirstCodes", "restFirstCodes", "headFirstCodes"]
+         "findStep", "findHit", "findMiss", "findStart", "byteCount", "unitCount", "ownFirstCodes", "restFirstCodes", "headFirstCodes",
+         "loadSteps", "exitSteps"]
 
 TYPES = {"activityBitWrites": "List (Nat × Nat)", "activityBitReads": "List Nat", "substLoopInclusive": "Bool",
-         "ownFirstCodes": "List Nat", "restFirstCodes": "List Nat", "headFirstCodes": "List Nat"}
+         "ownFirstCodes": "List Nat", "restFirstCodes": "List Nat", "headFirstCodes": "List Nat",
+         "loadSteps": "List (Nat × Nat)", "exitSteps": "List (Nat × Nat)"}
 
 
 def render(d, source_note):
@@ -492,6 +574,7 @@ GROUPS = {
     "buffers": ["byteCount", "unitCount"],
     "layers": ["ownFirstCodes", "restFirstCodes"],
     "phases": ["headFirstCodes"],
+    "resets": ["loadSteps", "exitSteps"],
 }
 FALLBACK = os.path.join(HERE, "gen_fallback.json")
 
